@@ -7,8 +7,7 @@ from dataflow import forward_taint
 from prov import Prov, guards
 
 DIRENTRY = "internal::direntry::DirEntry"
-NOT_STREAM = [r"^\(PartialEq::ne\(.*obj_type,const:ObjType::Stream\)\)$", r"^!\(PartialEq::eq\(.*obj_type,const:ObjType::Stream\)\)$",
-              r"^\(PartialEq::eq\(.*obj_type,const:ObjType::(Storage|Root)\)\)$", r"^!\(PartialEq::ne\(.*obj_type,const:ObjType::(Storage|Root)\)\)$"]
+NOT_STREAM = [r"obj_type is not ObjType::Stream$", r"obj_type is ObjType::(Storage|Root)$"]
 
 
 def _excludes_stream(atoms):
